@@ -7,7 +7,7 @@ EXPLANATION = ("Static MIR rules: (R14.1) for every flush of the writer chain (W
                "pass-through layers (encryption, position, raw) own no byte container, so nothing is held back by them; the compression layer's "
                "InData arm flushes the brotli CompressorWriter; (R14.3) in the fail-safe decompressor every exit taken after the inner read returned 0 "
                "passes through a BrotliDecompressStream call (only a decode call can surface output the decoder already holds); (R14.4) in the unauthenticated chunk load "
-               "nothing between the read of the chunk and its caching fails on a short or missing tag (no exact read on the inner reader there). (R14.5) after a decode step that did not fail, an explicit error result is reachable only across an edge on which the step produced 0 bytes: bytes already written to the caller's buffer are never replaced by an error. (R14.7) = R13.3: the chunk handed to the authenticated cipher is filled by read_to_end(take(inner, constant)); (R14.6) in the unauthenticated chunk loader only a read of 0 bytes means the end of the stream: any data read, even fewer bytes than a tag, is decrypted and cached. How many bytes repair "
+               "nothing between the read of the chunk and its caching fails on a short or missing tag (no exact read on the inner reader there). (R14.5) after a decode step that did not fail, an explicit error result is reachable only across an edge on which the step produced 0 bytes: bytes already written to the caller's buffer are never replaced by an error. (R14.7) = R13.3: the chunk handed to the authenticated cipher is filled by read_to_end(take(inner, constant)); (R14.8) = R13.4: a decode step that produced 0 bytes is never returned as Ok(0) mid-stream; (R14.6) in the unauthenticated chunk loader only a read of 0 bytes means the end of the stream: any data read, even fewer bytes than a tag, is decrypted and cached. How many bytes repair "
                "recovers is runtime and not decided.")
 TRUSTED = ['rustc MIR', 'brotli CompressorWriter::flush emits all pending input and flushes its inner writer', 'std::io::Write::flush of File/Stdout']
 ASSUMPTIONS = ['dependency flush semantics as documented']
@@ -194,6 +194,11 @@ def run(prog, rep, tier):
     # is checked, however the source splits its reads (= R13.3 / R03.7)
     from .c13 import chunk_loads_complete
     chunk_loads_complete(prog, rep, 'R14.7')
+
+    # ---------------- R14.8 repair reads on until the source ends: a step of the fail-safe decompressor that produced nothing is never reported as Ok(0)
+    # mid-stream, which every caller takes for the end of the data (= R13.4 / R02.8)
+    from .c13 import decoder_zero_count_rule
+    decoder_zero_count_rule(prog, rep, 'R14.8')
 
     # ---------------- R14.3 decoder drained before end of input is reported
     rd = one_body(prog, rep, 'R14.3', 'mla', adt='layers::compress::CompressionLayerFailSafeReader', name='read', trait='std::io::Read')
